@@ -352,7 +352,7 @@ def oracleStep (st : St) (toks : List String) (res : String) : St × String :=
         | _, _ => (st, "bad-op")
       | _ => (st, "bad-op")
     | none => (st, "bad-op")
-  | ["udp.write", i, _, _, pl, lp] =>
+  | ["udp.write", i, toA, toP, pl, lp] =>
     match hexN pl with
     | some pl =>
       -- a write on an unbound socket binds it to the wildcard address and an ephemeral port first
@@ -366,12 +366,21 @@ def oracleStep (st : St) (toks : List String) (res : String) : St × String :=
       if !res.startsWith "n=" then (st, "ok") else
       -- "n=<len> pkt=<proto> <src> <dst> <sport> <dport> ulen=<u> <payload>"
       match res.splitOn " " with
-      | [n, _, _, _, _, _, ul, p] =>
+      | [n, _, _, dst, _, dport, ul, p] =>
         let ok := n == s!"n={pl.length}" && ul == s!"ulen={8 + pl.length}" && hexN p == some pl
-        (st, if ok then "ok" else "bad c11.write-emitted-other-bytes-or-length")
+        -- a destination given with the write is the destination of the packet (a v4-mapped address as its IPv4 part)
+        let want : Option (List Nat) := match hexN toA with
+          | some a => if a.length == 16 && a.take 12 == [0, 0, 0, 0, 0, 0, 0, 0, 0, 0, 255, 255] then some (a.drop 12)
+                      else if a.isEmpty then none else some a
+          | none => none
+        let dstOk := match want, toP.toNat? with
+          | some a, some pt => hexN dst == some a && (pt == 0 || dport.toNat? == some pt)
+          | _, _ => true
+        (st, if !ok then "bad c11.write-emitted-other-bytes-or-length"
+             else if !dstOk then "bad c11.write-emitted-to-another-destination" else "ok")
       | _ => (st, "bad c11.write-emitted-not-exactly-one-packet")
     | none => (st, "bad-op")
-  | [e, nic, src, dst, msg, _] =>
+  | [e, nic, src, dst, msg, flTok] =>
     if e != "echo4" && e != "echo6" then (st, "ok") else
     match nic.toNat?, hexN src, hexN dst, hexN msg with
     | some nic, some src, some dst, some msg =>
@@ -383,7 +392,10 @@ def oracleStep (st : St) (toks : List String) (res : String) : St × String :=
       let frames := if res == "-" then [] else res.splitOn " | "
       if frames.length > 1 then (st, "bad c13.more-than-one-reply") else
       match frames with
-      | [] => (st, if own && isReq then "bad c13.request-not-answered" else "ok")
+      | [] =>
+        -- a request whose 8-byte echo header is split over two views (first view shorter than the header) may be ignored
+        let headerSplit := v6 && (match flTok.toNat? with | some k => 0 < k && k < 8 | none => false)
+        (st, if own && isReq && !headerSplit then "bad c13.request-not-answered" else "ok")
       | f :: _ =>
         if !(own && (isReq || maybeReq)) then (st, "bad c13.reply-to-request-for-someone-else-or-non-request") else
         match f.splitOn " " with
